@@ -37,8 +37,8 @@ CONSTANTS FixAsyncCb,       \* TRUE: AddWaitForCsvTx does not call back synchron
 Drivers == {"A", "B", "C"}
 Spawned == {"obs", "elw", "rec"}
 Procs   == Drivers \cup Spawned
-Mutexes == {"M", "M2", "W", "H", "R", "P", "G", "SW"}
-(* M  SwapStateMachine.mutex of the swap       M2 mutex of a second, new swap *)
+Mutexes == {"M", "M2A", "M2B", "M2C", "W", "H", "R", "P", "G", "SW"}
+(* M  SwapStateMachine.mutex of the swap       M2<p> mutex of the new swap created by driver p (written M2 in the programs) *)
 (* W  BlockchainRpcTxWatcher (embedded Mutex)   H  liquidBlockHeaderSubscriber.mu *)
 (* R  electrumTxWatcher.mu   P policy.mu (package level)   G messages.Manager  *)
 (* SW SwapService RWMutex held for writing; readers are counted in rd        *)
@@ -374,11 +374,12 @@ ReadersOther(s, p) == \E q \in Procs \ {p} : s.rd[q] > 0
 WriterWaiting(s, p) == \E q \in Procs \ {p} : Running(s, q) /\ Ins(s, q).op = "acq" /\ Ins(s, q).a = "SW"
                                                /\ (s.own["SW"] # "-" \/ ReadersOther(s, q))
 
+LockOf(in, p) == IF in.a = "M2" THEN "M2" \o p ELSE in.a
 \* can p execute its current instruction?
 Enabled(s, p) ==
   /\ Running(s, p)
   /\ LET in == Ins(s, p) IN
-     CASE in.op = "acq"  -> /\ s.own[in.a] = "-"
+     CASE in.op = "acq"  -> /\ s.own[LockOf(in, p)] = "-"
                             /\ (in.a = "SW" => ~ReadersOther(s, p) /\ s.rd[p] = 0)
        [] in.op = "racq" -> s.own["SW"] = "-" /\ ~WriterWaiting(s, p)
        [] in.op = "send" -> FixKickoff \/ (Running(s, in.a) /\ Ins(s, in.a).op = "recv" /\ ~s.got[in.a])
@@ -395,8 +396,8 @@ ActionOf(st) == "A_" \o st
 Exec(s0, p) ==
   LET s  == [s0 EXCEPT !.steps = @ + 1]
       in == Ins(s, p) IN
-  CASE in.op = "acq"   -> Adv([s EXCEPT !.own[in.a] = p], p, 1)
-    [] in.op = "rel"   -> Adv([s EXCEPT !.own[in.a] = "-"], p, 1)
+  CASE in.op = "acq"   -> Adv([s EXCEPT !.own[LockOf(in, p)] = p], p, 1)
+    [] in.op = "rel"   -> Adv([s EXCEPT !.own[LockOf(in, p)] = "-"], p, 1)
     [] in.op = "racq"  -> Adv([s EXCEPT !.rd[p] = @ + 1], p, 1)
     [] in.op = "rrel"  -> Adv([s EXCEPT !.rd[p] = @ - 1], p, 1)
     [] in.op \in {"gate", "acc", "recv0"} -> Adv(s, p, 1)
